@@ -1227,6 +1227,18 @@ pub fn step_emi(sim: &mut Sim, ctx: &mut Ctx) -> Option<Tx> {
                 .cloned()
                 .collect();
             let (ui, ma) = if owing.is_empty() { (ui, ma) } else { *ctx.rng.pick(&owing) };
+            if owing.is_empty() {
+                // nobody owes yet: the holder borrows up to its limit first
+                if let Some(mut t) = crate::actors::borrow_boundary_for(sim, ctx, ui, gi, ma) {
+                    crate::actors::submit(sim, ctx, &mut t);
+                }
+            }
+            {
+                let mut f = Vec::new();
+                for e in crate::actors::act_oracle_publish(sim, ctx, &mut f) {
+                    sim.apply(e);
+                }
+            }
             crate::actors_tx::make_unhealthy_target(sim, ctx, Some(ma));
             let others: Vec<usize> = (0..ctx.world.users.len()).filter(|x| *x != ui).collect();
             if others.is_empty() {
